@@ -15,9 +15,9 @@ THEOREMS = ['Fsic.C19.' + n for n in [
     'dataframe_rows', 'dataframe_cells', 'dataframe_status', 'dataframe_internal_iff', 'container_columns',
     'dataColumns_modelTable', 'linker_tables', 'linker_tables_lookup', 'linker_tables_count',
     'linker_tables_false_at_witness', 'from_dataframe_roundtrip', 'from_dataframe_roundtrip_id',
-    'symbols_roundtrip_of_decoderOk', 'decoderOk_of_symbols_roundtrip', 'symbols_roundtrip',
-    'installed_coercion_observed', 'symbols_roundtrip_false_at_witness', 'symbols_roundtrip_raises_at_witness',
-    'codeDecoder_not_ok', 'symbols_roundtrip_partial', 'fixedDecoder_ok', 'symbols_roundtrip_fixed']]
+    'symbols_roundtrip_of_decoderOk', 'decoderOk_of_symbols_roundtrip', 'symbols_roundtrip_iff_decoderOk',
+    'installed_coercion_observed', 'codeDecoder_ok_of_markers', 'codeDecoder_ok', 'symbols_roundtrip',
+    'symbols_roundtrip_iff_validTypes']]
 RULE = ('random model scripts (1-5 equations; lags/leads, {parameters}, <errors>, exp/log/max/min/abs/np.sqrt, '
         'conditional expressions with keywords, fenced verbatim blocks, multi-line statements) built with '
         'parse_model + build_model; instances over span types range / list of str / list of int / mixed hashables / '
@@ -30,7 +30,9 @@ RULE = ('random model scripts (1-5 equations; lags/leads, {parameters}, <errors>
         'from tables with dropped / extra / integer / boolean columns and a custom default_value); linkers of 0-3 '
         'such submodels with own variables, names of type str/int (incl. a name equal to a submodel key), all flag '
         'combinations; symbol lists = parser output of every generated script and of a fixed catalogue (verbatim '
-        'only, functions, keywords, single symbol, ...) plus contiguous sub-lists of those (model comparison only). '
+        'only, functions, keywords, single symbol, ...): oracle + three-way comparison real output == model output '
+        '== original list; plus contiguous sub-lists / reversals of those (three-way comparison only: not parser '
+        'output, covered by the theorem). '
         'distinct = distinct (instance recipe, entry point, flags) resp. distinct symbol list; non-trivial = at least '
         'one variable and one period resp. a non-empty list')
 TRUSTED = ['pandas (DataFrame construction from a dict of arrays / a list of dicts, Index construction from the span, '
@@ -46,14 +48,17 @@ ASSUMPTIONS = ['variable names are distinct and none is called status/iterations
                'such spans are probed by the oracle only',
                'from_dataframe round trip is stated for float models (the constructor casts to the model dtype) and '
                'for the variables of the class (NAMES); variables added at run time are not part of the class',
-               'symbol `type` values are members of the Type enum',
+               'symbol `type` values are members of the Type enum (the typing of Symbol.type; '
+               'symbols_roundtrip_iff_validTypes shows it is exactly what the round trip needs)',
+               'a str / non-numeric object in a lags/leads CELL is outside the model (int(field) on it is modelled as '
+               'a raise); symbols_to_dataframe never produces such a cell and nothing compared depends on it',
                'position of the status/iterations columns and the order of the linker dict are not compared '
                '(the property is silent); the Lean theorems state what the code does (appended last, linker first)']
 
 META = {
-    "text": "Theorems for every store (any variables, span, cell type), flag combination, linker and symbol list: exported columns = model-order names (underscore-prefixed iff requested) ++ status? ++ iterations?, no duplicates, index = span, one cell per period, each column holds exactly its series; container export = index order; linker export = one table per submodel plus the linker's, keyed correctly (guard: linker name not a submodel key; count theorem without the guard); from_dataframe on any export reproduces span and the cast of every class variable (identity for float models); symbol round trip holds for every list IFF the decoder maps the coercion's missing markers back to None in every optional field. With the reflected coercion of the installed pandas the code's decoder FAILS this (negation proved at witnesses: equation/code/name come back NaN; all-missing lags/leads raise), the exact guard is proved in both directions (symbols_roundtrip_partial) and the candidate patch is proved correct (symbols_roundtrip_fixed). Tied to fsic/tools.py, BaseModel.from_dataframe, VectorContainer.to_dataframe by exact comparison of tables (cells as IEEE bits) on generated models/linkers/symbol lists.",
+    "text": "Theorems for every store (any variables, span, cell type), flag combination, linker and symbol list: exported columns = model-order names (underscore-prefixed iff requested) ++ status? ++ iterations?, no duplicates, index = span, one cell per period, each column holds exactly its series; container export = index order; linker export = one table per submodel plus the linker's, keyed correctly (guard: linker name not a submodel key; count theorem without the guard); from_dataframe on any export reproduces span and the cast of every class variable (identity for float models); symbols_roundtrip: for EVERY symbol list, with the reflected coercion of the installed pandas, the code's decoder (is_missing = None or float NaN -> None in name/lags/leads/equation/code, int(field) otherwise for lags/leads) returns the original list (iff every type is a Type member); in general the round trip holds for every list IFF the decoder maps the coercion's missing markers back to None in every optional field, which the code's decoder does for any coercion whose markers are None/NaN. Tied to fsic/tools.py, BaseModel.from_dataframe, VectorContainer.to_dataframe by exact comparison of tables (cells as IEEE bits) on generated models/linkers/symbol lists; symbol round trips compared three ways (real output == model output == original list).",
     "design_ref": "DESIGN.md §5 M8, §6 C19, §7 row 15",
-    "note": "Partial: pandas is outside the model (DataFrame/Index construction, dtype inference, None->NaN coercion, iterrows) - observed through the reflected table and by the oracle (dtype preservation). Known findings on the unchanged tree: symbols round trip returns NaN for missing name/equation/code; raises TypeError when every lags/leads entry is None. Trusted: Lean kernel, standard axioms, the correspondence harness.",
+    "note": "Partial: pandas is outside the model (DataFrame/Index construction, dtype inference, None->NaN coercion, iterrows) - observed through the reflected table and by the oracle (dtype preservation). The two symbols round-trip findings (NaN for a missing name/equation/code; TypeError when every lags/leads entry is None) are fixed by fsic 56f842e: their oracle keys remain and a regression under them is a VIOLATION. Open known finding on the unchanged tree: a None span label is exported as NaN (df-index-none-label-nan). Trusted: Lean kernel, standard axioms, the correspondence harness.",
     "technique": "Lean 4 proof (induction over insertion-ordered dicts and symbol lists, decide on reflected tables) + differential correspondence check + property oracle on the real DataFrames"
 }
 
@@ -778,8 +783,8 @@ def run_linkers(ctx, rep, n_linkers, scripts):
 
 
 def symbol_lists(rng, scripts, n_sub):
-    """[(symbol list, origin, in_quantifier)]: parser outputs (in the property's quantifier) and contiguous
-    sub-lists / reversals of them (model comparison only)."""
+    """[(symbol list, origin, in_quantifier)]: parser outputs (in the property's quantifier: oracle + comparison)
+    and contiguous sub-lists / reversals of them (not parser output: comparison only — the theorem covers them)."""
     out = []
     seen = set()
     for script in list(CATALOGUE) + scripts:
@@ -810,6 +815,18 @@ def symbol_lists(rng, scripts, n_sub):
     return out
 
 
+def symbols_shape(ss):
+    """Which columns mix present and missing entries / are entirely missing (what pandas' coercion depends on)."""
+    out = []
+    for f in ('name', 'lags', 'leads', 'equation', 'code'):
+        miss = sum(getattr(s, f) is None for s in ss)
+        if miss and miss < len(ss):
+            out.append(f + ':mixed')
+        elif miss:
+            out.append(f + ':all-missing')
+    return out
+
+
 def run_symbols(ctx, rep, scripts, n_sub):
     rng = ctx.sub_rng('symbols')
     lists = symbol_lists(rng, scripts, n_sub)
@@ -822,6 +839,8 @@ def run_symbols(ctx, rep, scripts, n_sub):
         kinds = {int(s.type) for s in ss}
         for t in kinds:
             rep.dist['symbol-type:%d' % t] += 1
+        for sh in symbols_shape(ss):
+            rep.dist['symbols-column:' + sh] += 1
         rep.case(repr(ss), nontrivial=bool(ss),
                  sample={'script': case['script'], 'n': len(ss), 'back': repr(back)[:200]} if rep.evaluations % 211 == 0 else None)
         if exc is not None:
@@ -833,21 +852,14 @@ def run_symbols(ctx, rep, scripts, n_sub):
         rows.append((ss, case, impl))
     if ctx.oracle_only or not rows:
         return
-    outs = ctx.drive(['tools_symbols\t' + json.dumps({'symbols': sym_in(ss), 'decoder': 'code'}) for ss, _, _ in rows])
-    accepted_conforming = 0
+    outs = ctx.drive(['tools_symbols\t' + json.dumps({'symbols': sym_in(ss)}) for ss, _, _ in rows])
     for (ss, case, impl), o in zip(rows, outs):
         model = json.loads(o)['decoded'] if not o.startswith('!') else o
-        if impl == model:
-            continue
-        if impl == conforming(ss):
-            # the model follows the code that exists and predicts a defect here; an implementation that returns the
-            # original list satisfies the property: accepted, reported as drift
-            accepted_conforming += 1
-            continue
-        rep.disagree('symbols round trip: model != impl (and impl != original list)', case, model, impl)
-    if accepted_conforming:
-        rep.notes.append(f'model_drift: {accepted_conforming} symbol lists where the model of the current decoder predicts '
-                         f'NaN / a raise but the implementation returned the original list (property-conforming; accepted)')
+        # strict, three ways: real output == model output == original list
+        if impl != model:
+            rep.disagree('symbols round trip: model != impl', case, model, impl)
+        elif model != conforming(ss):
+            rep.disagree('symbols round trip: model (= impl) != original list', case, model, conforming(ss))
 
 
 PROBE_SPANS = [[1, None, 2], [None, 'a']]
